@@ -204,14 +204,21 @@ class FamilyRun:
         t_b = time.time()
         prefix = os.path.join(d, "tr")
         tb = os.path.join(d, "table.ndjson")
-        rc, out = run([exe, prefix, tb] + [str(x) for x in suite.get("args", [])], 1500)
-        if rc != 0:
-            raise Broken("harness %s exited with %d\n%s" % (name, rc, out[-2000:]))
-        import table as tablemod
-        rows = [json.loads(l) for l in open(tb) if l.strip()]
-        tbl, unknown = tablemod.build(rows)
         tj = os.path.join(d, "table.json")
-        json.dump(tbl, open(tj, "w"))
+        if suite.get("obs"):
+            rc, out = run([exe, prefix] + [str(x) for x in suite.get("args", [])], 1500)
+            if rc != 0:
+                raise Broken("harness %s exited with %d\n%s" % (name, rc, out[-2000:]))
+            tbl, unknown = {"nodes": []}, []
+            json.dump(tbl, open(tj, "w"))
+        else:
+            rc, out = run([exe, prefix, tb] + [str(x) for x in suite.get("args", [])], 1500)
+            if rc != 0:
+                raise Broken("harness %s exited with %d\n%s" % (name, rc, out[-2000:]))
+            import table as tablemod
+            rows = [json.loads(l) for l in open(tb) if l.strip()]
+            tbl, unknown = tablemod.build(rows)
+            json.dump(tbl, open(tj, "w"))
         parts = []
         for part in sorted(glob.glob(prefix + ".*.ndjson")):
             if os.path.getsize(part) == 0:
@@ -248,7 +255,22 @@ class FamilyRun:
                 want.append(v["case"])
             res["verdicts"].append(v)
         res["truncated"] = len(r["verdicts"]) >= 300
-        if want:
+        if want and b["spec"] == "TraceObs":
+            # observation records: the failing record is the replay (case = line number)
+            wanted = set(want)
+            lines = {}
+            with open(part) as f:
+                for i, line in enumerate(f, 1):
+                    if i in wanted:
+                        lines[i] = line
+            for v in res["verdicts"]:
+                if v["primary"] and v["case"] in lines:
+                    rp = os.path.join(self.dir, "replay-%s-%s-%d.json" % (name, os.path.basename(part), v["case"]))
+                    if not os.path.exists(rp):
+                        json.dump({"suite": name, "case": v["case"], "table": b["tbl"], "obs": True,
+                                   "events": [json.loads(lines[v["case"]])]}, open(rp, "w"))
+                    v["replay"] = rp
+        elif want:
             # keep what is needed to replay the first failing cases: their events and the table (one pass over the part)
             slices = case_slices(part, set(want))
             for v in res["verdicts"]:
